@@ -66,6 +66,10 @@ pub struct CaseB {
   /// descriptor fail (count 0 = all of them from `from` on); errno kind 0 = EAGAIN (queue full),
   /// 1 = EIO, 2 = ENOSPC, 3 = EINTR
   pub syswrite_fault: Option<(usize, u32, u8)>,
+  /// with syswrite_fault (from, ..): the write(2) call numbered from-1 transfers only this many
+  /// bytes (a short count, which uinput never produces; used by the C20 sweep only, where nothing
+  /// but "a failed write ends the loop" is judged)
+  pub syswrite_short: Option<usize>,
   /// syspoll only: the k-th wait system call fails (kind 0 = EBADF, 1 = EINVAL, 2 = EFAULT)
   pub poll_fault: Option<(usize, u8)>,
 }
@@ -77,7 +81,7 @@ impl CaseB {
       "tab": self.tab.iter().map(|(t, on)| json!([t, on])).collect::<Vec<_>>(),
       "has_tablet": self.has_tablet,
       "cfg": {"p_eintr": self.cfg.p_eintr, "p_spurious_timeout": self.cfg.p_spurious_timeout, "p_spurious_ready": self.cfg.p_spurious_ready, "p_latency": self.cfg.p_latency, "p_oversleep": self.cfg.p_oversleep, "max_interrupts": self.cfg.max_interrupts},
-      "tape": self.tape, "fail_at": self.fail_at, "extra_ticks": self.extra_ticks, "kbd_end_at": self.kbd_end_at, "tab_end_at": self.tab_end_at, "hybrid": self.hybrid, "write_fault": self.write_fault.map(|(k, kind)| vec![k as u64, kind as u64]), "read_fault": self.read_fault.map(|(k, t)| json!([k, t])), "sysread_fault": self.sysread_fault.map(|(k, t)| json!([k, t])), "syswrite_fault": self.syswrite_fault.map(|(k, c, e)| vec![k as u64, c as u64, e as u64]), "syspoll": self.syspoll, "poll_fault": self.poll_fault.map(|(k, kind)| vec![k as u64, kind as u64])})
+      "tape": self.tape, "fail_at": self.fail_at, "extra_ticks": self.extra_ticks, "kbd_end_at": self.kbd_end_at, "tab_end_at": self.tab_end_at, "hybrid": self.hybrid, "write_fault": self.write_fault.map(|(k, kind)| vec![k as u64, kind as u64]), "read_fault": self.read_fault.map(|(k, t)| json!([k, t])), "sysread_fault": self.sysread_fault.map(|(k, t)| json!([k, t])), "syswrite_fault": self.syswrite_fault.map(|(k, c, e)| vec![k as u64, c as u64, e as u64]), "syswrite_short": self.syswrite_short, "syspoll": self.syspoll, "poll_fault": self.poll_fault.map(|(k, kind)| vec![k as u64, kind as u64])})
   }
   pub fn from_json(v: &Value) -> Result<CaseB, String> {
     let layout = layout_from_json(v.get("layout").ok_or("case: no layout")?)?;
@@ -101,6 +105,7 @@ impl CaseB {
       read_fault: v.get("read_fault").and_then(|x| x.as_array()).and_then(|a| if a.len() == 2 { Some((a[0].as_u64().unwrap_or(0) as usize, a[1].as_bool().unwrap_or(false))) } else { None }),
       sysread_fault: v.get("sysread_fault").and_then(|x| x.as_array()).and_then(|a| if a.len() == 2 { Some((a[0].as_u64().unwrap_or(0) as usize, a[1].as_bool().unwrap_or(false))) } else { None }),
       syswrite_fault: v.get("syswrite_fault").and_then(|x| x.as_array()).and_then(|a| if a.len() == 3 { Some((a[0].as_u64().unwrap_or(0) as usize, a[1].as_u64().unwrap_or(0) as u32, a[2].as_u64().unwrap_or(0) as u8)) } else { None }),
+      syswrite_short: v.get("syswrite_short").and_then(|x| x.as_u64()).map(|x| x as usize),
       syspoll: v.get("syspoll").and_then(|x| x.as_bool()).unwrap_or(false),
       poll_fault: v.get("poll_fault").and_then(|x| x.as_array()).and_then(|a| if a.len() == 2 { Some((a[0].as_u64().unwrap_or(0) as usize, a[1].as_u64().unwrap_or(0) as u8)) } else { None }) })
   }
@@ -112,7 +117,7 @@ impl CaseB {
     h.u(self.fail_at.map(|x| x as u64 + 1).unwrap_or(0)); h.u(self.extra_ticks as u64);
     h.u(self.kbd_end_at.map(|x| x + 1).unwrap_or(0)); h.u(self.tab_end_at.map(|x| x + 1).unwrap_or(0)); h.u(self.hybrid as u64); h.u(self.has_tablet as u64); h.u(self.write_fault.map(|(k, kind)| (k as u64) * 4 + kind as u64 + 1).unwrap_or(0)); h.u(self.read_fault.map(|(k, t)| (k as u64) * 2 + t as u64 + 1).unwrap_or(0));
     if let Some((k, t)) = self.sysread_fault { h.u(0x5eb); h.u(k as u64 * 2 + t as u64); }
-    if let Some((k, c, e)) = self.syswrite_fault { h.u(0x5ec); h.u(k as u64); h.u(c as u64); h.u(e as u64); }
+    if let Some((k, c, e)) = self.syswrite_fault { h.u(0x5ec); h.u(k as u64); h.u(c as u64); h.u(e as u64); h.u(self.syswrite_short.map(|x| x as u64 + 1).unwrap_or(0)); }
     if self.syspoll { h.u(0x5e5); h.u(self.poll_fault.map(|(k, kind)| (k as u64) * 4 + kind as u64 + 1).unwrap_or(0)); }
     h.fin()
   }
@@ -124,7 +129,8 @@ pub enum PollRes { Devices(Vec<VDevice>), TimedOut, Interrupted }
 #[derive(Debug, Clone)]
 pub enum Item {
   Register,
-  Poll { t_in: u64, timeout: Option<u64>, res: PollRes, t_out: u64 },
+  /// `unread`: scripted events that had reached a device and had not been read when poll returned
+  Poll { t_in: u64, timeout: Option<u64>, res: PollRes, t_out: u64, unread: u32 },
   /// res None + end false = Busy
   /// `phantom`: the event is not the next one of the script (the reader under test made it up,
   /// e.g. out of a record it should have skipped)
@@ -137,7 +143,7 @@ pub enum Item {
 pub fn item_str(it: &Item) -> String {
   match it {
     Item::Register => "register_poll".into(),
-    Item::Poll { t_in, timeout, res, t_out } => format!("poll(t={}us, timeout={:?}us) -> {:?} @{}us", t_in, timeout, res, t_out),
+    Item::Poll { t_in, timeout, res, t_out, unread } => format!("poll(t={}us, timeout={:?}us) -> {:?} @{}us{}", t_in, timeout, res, t_out, if *unread > 0 && *res == PollRes::TimedOut { format!(" ({} arrived event(s) unread)", unread) } else { String::new() }),
     Item::NextK { res, end, t_out, phantom } => format!("next_keyboard -> {}{} @{}us", if *end { "End".to_string() } else { res.as_ref().map(ev_str).unwrap_or("Busy".into()) }, if *phantom { " (not in the script)" } else { "" }, t_out),
     Item::NextT { res, end, t_out, phantom } => format!("next_tablet -> {}{} @{}us", if *end { "End".to_string() } else { res.map(|b| if b { "On".to_string() } else { "Off".to_string() }).unwrap_or("Busy".into()) }, if *phantom { " (not in the script)" } else { "" }, t_out),
     Item::Send { evs, t_out } => format!("send {} @{}us", evs_str(evs), t_out),
@@ -257,6 +263,7 @@ pub struct Sim<'a> {
   script_phys: Vec<KeyCode>,
   sysread_fault: Option<(usize, bool)>,
   syswrite_fault: Option<(usize, u32, u8)>,
+  syswrite_short: Option<usize>,
   /// what is held on the virtual keyboard according to the bytes that really arrived there
   out_held: Vec<KeyCode>,
 }
@@ -271,7 +278,7 @@ impl<'a> Sim<'a> {
       stats: SimStats::default(), bytes, byte_error: None, byte_notes: vec![],
       // runaway guard; scaled for marathon scripts
       cap: TRACE_CAP.max(10 * (case.kbd.len() + case.tab.len()) + 1000),
-      syspoll: case.hybrid && case.syspoll, poll_fault: if case.hybrid && case.syspoll { case.poll_fault } else { None }, sys_waits_done: 0, sys_asked: None, sys_answer: None, sys_stall: false, script_phys: vec![], sysread_fault: if case.hybrid { case.sysread_fault } else { None }, syswrite_fault: if case.hybrid { case.syswrite_fault } else { None }, out_held: vec![] }
+      syspoll: case.hybrid && case.syspoll, poll_fault: if case.hybrid && case.syspoll { case.poll_fault } else { None }, sys_waits_done: 0, sys_asked: None, sys_answer: None, sys_stall: false, script_phys: vec![], sysread_fault: if case.hybrid { case.sysread_fault } else { None }, syswrite_fault: if case.hybrid { case.syswrite_fault } else { None }, syswrite_short: if case.hybrid { case.syswrite_short } else { None }, out_held: vec![] }
   }
   fn now(&self) -> u64 { sim_now_us() }
   /// move the clock to `to` (never backwards) and deliver everything that has arrived by then
@@ -675,7 +682,7 @@ impl<'a> Sim<'a> {
         PollRes::Interrupted
       }
     };
-    self.trace.push(Item::Poll { t_in, timeout: to_us, res: res.clone(), t_out: self.now() });
+    self.trace.push(Item::Poll { t_in, timeout: to_us, res: res.clone(), t_out: self.now(), unread: (self.kbd_ready.len() + self.tab_ready.len()) as u32 });
     Ok(match res { PollRes::Devices(ds) => VPoll::Devices(ds), PollRes::TimedOut => VPoll::TimedOut, PollRes::Interrupted => VPoll::Interrupted })
   }
 }
@@ -683,7 +690,8 @@ impl<'a> Sim<'a> {
 impl<'a> VerifDriver for Sim<'a> {
   fn register_poll(&mut self) -> Result<(), String> {
     if let (Some((n, tablet)), Some(b)) = (self.sysread_fault, self.bytes.as_ref()) { let (k, t) = b.device_fds(); crate::sysseam::fail_reads_from_call(if tablet { t } else { k }, n as u32, libc::EIO); }
-    if let (Some((from, count, kind)), Some(b)) = (self.syswrite_fault, self.bytes.as_ref()) { crate::sysseam::fail_writes(b.uinput_fd(), from as u32, if count == 0 { u32::MAX } else { count }, [libc::EAGAIN, libc::EIO, libc::ENOSPC, libc::EINTR][(kind % 4) as usize]); }
+    if let (Some((from, count, kind)), Some(b)) = (self.syswrite_fault, self.bytes.as_ref()) { crate::sysseam::fail_writes(b.uinput_fd(), from as u32, if count == 0 { u32::MAX } else { count }, [libc::EAGAIN, libc::EIO, libc::ENOSPC, libc::EINTR][(kind % 4) as usize]);
+      if let (Some(bytes), true) = (self.syswrite_short, from > 0) { crate::sysseam::short_write(b.uinput_fd(), from as u32 - 1, bytes); } }
     self.maybe_fail("register_poll")?;
     if let Some(b) = self.bytes.as_mut() { if let Err(e) = b.register() { if self.byte_error.is_none() { self.byte_error = Some(format!("[driver] the real driver's register_poll failed on pipes: {}", e)); } } }
     self.trace.push(Item::Register);
@@ -709,14 +717,14 @@ impl<'a> VerifDriver for Sim<'a> {
         self.stats.eintr += 1;
         // nothing may have arrived: the wait ended early
         if !(self.kbd_notify || self.tab_notify) {
-          self.trace.push(Item::Poll { t_in, timeout: to_us, res: PollRes::Interrupted, t_out: self.now() });
+          self.trace.push(Item::Poll { t_in, timeout: to_us, res: PollRes::Interrupted, t_out: self.now(), unread: (self.kbd_ready.len() + self.tab_ready.len()) as u32 });
           return Ok(VPoll::Interrupted);
         }
       }
       else if to_us.is_none() && self.tape.fault(self.cfg.p_spurious_timeout) {
         // a time-out although no timer is armed
         self.stats.spurious_timeout += 1;
-        self.trace.push(Item::Poll { t_in, timeout: to_us, res: PollRes::TimedOut, t_out: self.now() });
+        self.trace.push(Item::Poll { t_in, timeout: to_us, res: PollRes::TimedOut, t_out: self.now(), unread: (self.kbd_ready.len() + self.tab_ready.len()) as u32 });
         return Ok(VPoll::TimedOut);
       }
       else if self.tape.fault(self.cfg.p_spurious_ready) {
@@ -725,7 +733,7 @@ impl<'a> VerifDriver for Sim<'a> {
         if !(self.kbd_notify || self.tab_notify) {
           self.stats.spurious_ready += 1;
           let d = if self.has_tablet && !self.tab_ended && self.tape.below(2) == 1 { VDevice::Tablet } else { VDevice::Keyboard };
-          self.trace.push(Item::Poll { t_in, timeout: to_us, res: PollRes::Devices(vec![d]), t_out: self.now() });
+          self.trace.push(Item::Poll { t_in, timeout: to_us, res: PollRes::Devices(vec![d]), t_out: self.now(), unread: (self.kbd_ready.len() + self.tab_ready.len()) as u32 });
           return Ok(VPoll::Devices(vec![d]));
         }
       }
@@ -743,7 +751,7 @@ impl<'a> VerifDriver for Sim<'a> {
             if !(self.kbd_notify || self.tab_notify) {
               self.stats.timer_ticks += 1;
               self.cross_check_real_poll(None);
-              self.trace.push(Item::Poll { t_in, timeout: to_us, res: PollRes::TimedOut, t_out: self.now() });
+              self.trace.push(Item::Poll { t_in, timeout: to_us, res: PollRes::TimedOut, t_out: self.now(), unread: (self.kbd_ready.len() + self.tab_ready.len()) as u32 });
               return Ok(VPoll::TimedOut);
             }
           }
@@ -761,7 +769,7 @@ impl<'a> VerifDriver for Sim<'a> {
     self.kbd_notify = false; self.tab_notify = false;
     self.in_drain = true;
     self.cross_check_real_poll(Some(&ds));
-    self.trace.push(Item::Poll { t_in, timeout: to_us, res: PollRes::Devices(ds.clone()), t_out: self.now() });
+    self.trace.push(Item::Poll { t_in, timeout: to_us, res: PollRes::Devices(ds.clone()), t_out: self.now(), unread: (self.kbd_ready.len() + self.tab_ready.len()) as u32 });
     Ok(VPoll::Devices(ds))
   }
 
@@ -955,6 +963,7 @@ pub fn check_trace(l: &Layout, trace: &[Item], result: &Result<(), String>, en: 
   let mut owed_k = false; let mut owed_t = false;
   let mut prev_interrupt_or_spurious = false;
   let mut last_poll_timed_out = false;
+  let mut stale_unread = false;
   let mut events_this_wakeup = 0u32;
   let mut tablet_events = 0u32;
   let mut timer_gen = 0u64;
@@ -988,7 +997,7 @@ pub fn check_trace(l: &Layout, trace: &[Item], result: &Result<(), String>, en: 
     match it {
       Item::Register => {}
       Item::Fail { .. } => { failed = true; obs.nt_c20 = true; }
-      Item::Poll { t_in, timeout, res, t_out } => {
+      Item::Poll { t_in, timeout, res, t_out, unread } => {
         // before the loop waits again everything it owes must have been written
         while let Some(g) = pending.pop_front() {
           if group_done(&g) { continue; }
@@ -1038,7 +1047,7 @@ pub fn check_trace(l: &Layout, trace: &[Item], result: &Result<(), String>, en: 
           report!("C11-timeout", i, format!("poll at t={}us with timeout {:?}us, but the repeat timer (keys {}, interval {}us) is due between {}us and {}us: expected {}", t_in, timeout, keys_str(&t.keys), t.iv, t.lo, t.hi,
             if t.lo <= *t_in && t.hi <= *t_in { "at most 1000us (overdue)".to_string() } else { format!("{}..{}us", t.lo.saturating_sub(*t_in), t.hi.saturating_sub(*t_in)) }));
         }
-        last_poll_timed_out = false;
+        last_poll_timed_out = false; stale_unread = false;
         match res {
           PollRes::Devices(ds) => {
             if ds.contains(&VDevice::Keyboard) { owed_k = true; }
@@ -1050,6 +1059,10 @@ pub fn check_trace(l: &Layout, trace: &[Item], result: &Result<(), String>, en: 
           PollRes::TimedOut => {
             last_poll_timed_out = true;
             if timer.is_none() { prev_interrupt_or_spurious = true; }
+            // "for as long as no further key event or tablet-mode change arrives": events that reached a
+            // device, that the loop was notified about (readiness is reported once) and that it left
+            // unread do count as arrived — whatever chord follows this time-out comes "at another time"
+            stale_unread = *unread > 0 && timer.is_some() && !tablet;
             if let Some(t) = timer.as_mut() {
               if !tablet {
                 if early_poll && *t_out < t.lo {
@@ -1201,6 +1214,7 @@ pub fn check_trace(l: &Layout, trace: &[Item], result: &Result<(), String>, en: 
               match g.kind {
                 Kind::Chord => {
                   obs.chords += 1;
+                  if stale_unread { report!("C11-chord-after-unread-event", i, "a repeat chord was written although further events had reached the devices, had been announced to the loop, and were left unread by it".to_string()); }
                   let before = g.before.clone().unwrap_or_default();
                   if !before.is_empty() { obs.chords_while_held += 1; obs.nt_c11 = true; }
                   if obs.chords >= 2 { obs.nt_c11 = true; }
